@@ -73,6 +73,26 @@ pub open spec fn content_all(evs: Seq<InputEvent>, n: int) -> Seq<char> decrease
 /// the elements whose `text` attribute is rendered as a <text> beside / inside them: for these, text CONTENT is the
 /// same thing written differently (C19: "given through a 'text' attribute, or as the content of a shape or <text>").
 /// `box` and `point` are svgdx's phantom shapes: they render their `text` attribute like any other shape
+/// formatting white space only (what str::trim removes entirely)
+pub open spec fn blank(s: Seq<char>) -> bool { str_trim(s).len() == 0 }
+pub open spec fn has_cdata_spec(evs: Seq<InputEvent>) -> bool { exists|k: int| 0 <= k < evs.len() && cdata_of(#[trigger] evs[k]) is Some }
+/// what one content event contributes to a shape's text: its character data - except that white space around a CDATA
+/// section is formatting (`<rect>\n<![CDATA[..]]>\n</rect>`, the idiom of the documentation and the suite)
+pub open spec fn piece(ev: InputEvent, hc: bool) -> Seq<char> {
+    match text_of(ev) { Some(t) => if hc && blank(t) { Seq::<char>::empty() } else { t }, None => match cdata_of(ev) { Some(c) => c, None => Seq::<char>::empty() } }
+}
+/// the author's text: the pieces of the first n content events, in order
+pub open spec fn content_sig(evs: Seq<InputEvent>, n: int, hc: bool) -> Seq<char> decreases n {
+    if n <= 0 || n > evs.len() { Seq::<char>::empty() } else { content_sig(evs, n - 1, hc) + piece(evs[n - 1], hc) }
+}
+/// R-any: `inner_events.iter().any(|e| e.cdata_string().is_some())`
+#[verifier::external_body]
+pub fn any_cdata(l: &InputList) -> (r: bool) ensures r == has_cdata_spec(l.events@) { unimplemented!() }
+/// `opt.unwrap_or_default()` on Option<String>
+#[verifier::external_body]
+pub fn string_or_empty(o: Option<String>) -> (r: String) ensures r@ == (match o { Some(s) => s@, None => Seq::<char>::empty() }) { unimplemented!() }
+#[verifier::external_body]
+pub fn string_push_str(s: &mut String, t: &String) ensures final(s)@ == old(s)@ + t@ { unimplemented!() }
 pub open spec fn graphics_name(n: Seq<char>) -> bool {
     n == "circle"@ || n == "ellipse"@ || n == "image"@ || n == "line"@ || n == "path"@ || n == "polygon"@ || n == "polyline"@ || n == "rect"@ || n == "text"@ || n == "use"@ || n == "reuse"@
     || n == "box"@ || n == "point"@
@@ -344,10 +364,14 @@ impl EventGen for Container {
 //@ strlit "clipPath" "mask" "marker" "pattern"
 //@ replace[R-matches] <<<matches!(\n                    self.0.name.as_str(),\n                    "clipPath" | "mask" | "marker" | "pattern"\n                )>>> => <<<(self.0.name.as_str() == "clipPath" || self.0.name.as_str() == "mask" || self.0.name.as_str() == "marker" || self.0.name.as_str() == "pattern")>>>
 //@ replace[R-typeann] <<<let mut inner_text = None;>>> => <<<let mut inner_text: Option<String> = None;>>>
+//@ replace[R-any] <<<let has_cdata = inner_events.iter().any(|e| e.cdata_string().is_some());>>> => <<<let has_cdata = any_cdata(&inner_events);>>>
+//@ replace-all[R-default] <<<inner_text.unwrap_or_default()>>> => <<<string_or_empty(inner_text)>>>
+//@ replace[R-string] <<<so_far.push_str(&t);>>> => <<<string_push_str(&mut so_far, &t);>>>
+//@ replace[R-string] <<<so_far.push_str(&c);>>> => <<<string_push_str(&mut so_far, &c);>>>
 //@ before <<<let res = el.generate_events(context);>>>
 //@ | assert(context.current_depth + 1 == old(context).current_depth); // the element itself, dispatched again as an empty one, is not a nesting level of its own: the dispatcher counts it once @C17.depth.text_content_same_level
 //@ before <<<el.set_attr("text", text);>>>
-//@ | assert(content_of(inner_events.events@, inner_events.events@.len() as int, text@)); // element content promoted to the text attribute is one event's character data, verbatim @C19.content.promoted_verbatim
+//@ | assert(text@ == content_sig(inner_events.events@, inner_events.events@.len() as int, has_cdata_spec(inner_events.events@))); // element content promoted to the text attribute is the author's text: every piece, in order, verbatim @C19.content.promoted_verbatim @C19.content.whole
 //@ ensures
 //@ - self.0.name@ == "svg"@ && attr_of(self.0, "xmlns"@) == Some(svg_ns()) && self.0.inner_events_some(*old(context)) ==>
 //@     r is Ok && r->Ok_0.0 == into_output(all_events_of(self.0, *old(context))) && r->Ok_0.1 is None
@@ -358,12 +382,16 @@ impl EventGen for Container {
 //@ loop 1
 //@ iter it
 //@ body-start
-//@ | proof { reveal_with_fuel(content_all, 2); assert(inner_events.events@[it.index@] == *e); }
+//@ | proof { reveal_with_fuel(content_sig, 2); assert(inner_events.events@[it.index@] == *e); }
+//@ invariant_except_break
+//@ - inner_text is Some ==> inner_text->Some_0@ == content_sig(inner_events.events@, it.index@, has_cdata)     @@C19.content.whole @@C19.content.promoted_verbatim
+//@ - inner_text is None ==> it.index@ == 0
 //@ invariant
 //@ - inner_events.events@ == it.history@.map(|i: int, e: &InputEvent| *e) + vstd::std_specs::iter::IteratorSpec::remaining(&it.iter).map(|i: int, e: &InputEvent| *e)
 //@ - it.index@ == it.history@.len()
-//@ - inner_text is Some ==> content_of(inner_events.events@, it.index@, inner_text->Some_0@)     @@C19.content.promoted_verbatim
-//@ - inner_text is Some ==> inner_text->Some_0@ == content_all(inner_events.events@, it.index@)     @@C19.content.whole
+//@ - has_cdata == has_cdata_spec(inner_events.events@)
+//@ ensures
+//@ - inner_text is Some ==> inner_text->Some_0@ == content_sig(inner_events.events@, inner_events.events@.len() as int, has_cdata)     @@C19.content.whole
 //@end
 }
 } // verus!
